@@ -151,14 +151,20 @@ type op struct {
 	eps      []*model.IstioEndpoint
 	preserve bool
 	keep     []pair
+	// via: how an update reaches the index. "": DiscoveryServer.EDSUpdate; "c": EDSCacheUpdate followed by the
+	// endpoint push of the kube controller's service-event path; "s": EDSCacheUpdate + SvcUpdate(update event)
+	// followed by the service push of the registry's service handler.  For the index itself all three are
+	// UpdateServiceEndpoints (the cache variants with logPushType = false).
+	via string
 }
 
 func parseOp(f []string) (op, bool) {
 	var o op
 	var ok bool
 	switch {
-	case f[0] == "upd" && len(f) == 4:
+	case (f[0] == "upd" || f[0] == "updc" || f[0] == "upds") && len(f) == 4:
 		o.kind = "upd"
+		o.via = f[0][3:]
 		if o.sk, ok = decPair(f[1]); !ok {
 			return o, false
 		}
@@ -213,7 +219,7 @@ func keepMap(keep []pair) map[string]sets.String {
 func (s *sut) run(o op) string {
 	switch o.kind {
 	case "upd":
-		return pushTok(s.idx.UpdateServiceEndpoints(shardKey(o.sk), o.k.a, o.k.b, o.eps, true))
+		return pushTok(s.idx.UpdateServiceEndpoints(shardKey(o.sk), o.k.a, o.k.b, o.eps, o.via == ""))
 	case "delsvc":
 		s.idx.DeleteServiceShard(shardKey(o.sk), o.k.a, o.k.b, o.preserve)
 	case "delshard":
@@ -367,7 +373,9 @@ func mutate(r *wire.Rng, prev []*model.IstioEndpoint) []*model.IstioEndpoint {
 		case 8: // duplicate key (same namespace/workload/address/port, other attributes differ)
 			if len(out) > 0 {
 				d := out[r.Intn(len(out))].DeepCopy()
-				d.LbWeight += 1
+				if r.Chance(1, 2) {
+					d.LbWeight += 1 // else: an exact duplicate
+				}
 				if r.Chance(1, 2) {
 					out = append(out, d)
 				} else {
@@ -430,7 +438,7 @@ func mutate(r *wire.Rng, prev []*model.IstioEndpoint) []*model.IstioEndpoint {
 func opLine(o op) []string {
 	switch o.kind {
 	case "upd":
-		return []string{"upd", o.sk.enc(), o.k.enc(), encEps(o.eps)}
+		return []string{"upd" + o.via, o.sk.enc(), o.k.enc(), encEps(o.eps)}
 	case "delsvc":
 		return []string{"delsvc", o.sk.enc(), o.k.enc(), wire.B(o.preserve)}
 	case "delshard":
@@ -477,7 +485,11 @@ func (g *genState) genOp() op {
 			}
 		}
 		g.last[key] = eps
-		return op{kind: "upd", sk: sk, k: k, eps: eps}
+		via := ""
+		if r.Chance(1, 5) {
+			via = "c" // the cache-only entry point (EDSCacheUpdate): same index semantics demanded
+		}
+		return op{kind: "upd", sk: sk, k: k, eps: eps, via: via}
 	case x < 16:
 		return op{kind: "delsvc", sk: sk, k: k, preserve: r.Chance(1, 3)}
 	case x < 18:
@@ -729,13 +741,45 @@ func oracleIndex(in, outp string) {
 			for _, e := range prev {
 				keys[e.Key()]++
 			}
+			// assumption distinct-keys-per-report: a registry does not report two endpoints with one key (the kube
+			// registry drops them, ServiceEntry workloads are named by their index).  With duplicates on either side
+			// NoPush says nothing about multiplicities (noPush_dup_report_witness): the clause is not judged, the
+			// skipped decisions are counted
 			dup := false
 			for _, n := range keys {
 				if n > 1 {
 					dup = true
 				}
 			}
+			newKeys := map[string]int{}
+			for _, e := range o.eps {
+				newKeys[e.Key()]++
+				if newKeys[e.Key()] > 1 {
+					dup = true
+				}
+			}
+			if push == "NoPush" && dup {
+				stats["nopush-with-duplicate-keys"]++
+			}
 			if push == "NoPush" && !dup {
+				stats["nopush-judged"]++
+				// multiplicities: with distinct keys on both sides, the endpoints a proxy may be served (healthy, or
+				// unhealthy and sent) are the same multiset before and after
+				pushable := func(eps []*model.IstioEndpoint) string {
+					var toks []string
+					for _, e := range eps {
+						if e.HealthStatus != model.UnHealthy || e.SendUnhealthyEndpoints {
+							c := e.DeepCopy()
+							if len(c.Addresses) > 1 {
+								sort.Strings(c.Addresses[1:])
+							}
+							toks = append(toks, encEp(c))
+						}
+					}
+					sort.Strings(toks)
+					return strings.Join(toks, ";")
+				}
+				multisetChanged := pushable(prev) != pushable(o.eps)
 				// every stored endpoint still reported unchanged
 				for _, oe := range prev {
 					found := false
@@ -759,6 +803,9 @@ func oracleIndex(in, outp string) {
 					if _, f := keys[ne.Key()]; !f && (ne.HealthStatus != model.UnHealthy || ne.SendUnhealthyEndpoints) {
 						fail("nopush-sound:added", "added endpoint: "+encEp(ne))
 					}
+				}
+				if multisetChanged {
+					fail("nopush-sound:multiplicity", "the endpoints that may be served changed: "+pushable(prev)+" -> "+pushable(o.eps))
 				}
 			}
 			if existed && prev != nil {
